@@ -368,7 +368,12 @@ Qed.
 From Verif Require FramesCodec.
 
 Lemma vm_fuel_enough f : vm_bound f <= FramesCodec.vm_fuel f.
-Proof. unfold vm_bound, FramesCodec.vm_fuel. nia. Qed.
+Proof.
+  unfold vm_bound, FramesCodec.vm_fuel.
+  destruct (Nat.le_gt_cases (fsize f) 8) as [H|H]; [lia|].
+  assert (H1 : 8 * fsize f <= fsize f * fsize f) by (apply Nat.mul_le_mono_r; lia).
+  rewrite <- Nat.mul_assoc. lia.
+Qed.
 
 Theorem frames_case_fuel f : vm_run (FramesCodec.vm_fuel f) f <> None.
 Proof. apply vm_terminates. apply vm_fuel_enough. Qed.
